@@ -241,6 +241,7 @@ ODD_EXCS = ('CyclicCause', 'CyclicContext', 'SelfCause', 'Unhashable', 'Unhashab
 # actions (output, death, barriers, threads)
 
 _threads = {}      # tag -> dict(event=Event, thread=..)
+_saved_streams = []
 
 
 def _decode_bytes(s):
@@ -340,6 +341,24 @@ def do_actions(acts, where):
             thread_action(act[1], where)
         elif kind == 'chdir':
             os.chdir(act[1])
+        elif kind == 'swap':
+            # what test fixtures do to the std streams: ['swap', 'save'] (setUp: keep the current streams, install
+            # private ones), ['swap', 'restore'] (tearDown/cleanup: put the kept ones back), ['swap', 'leak'] (rebind
+            # and never put back)
+            import io
+            if act[1] == 'save':
+                _saved_streams.append((sys.stdout, sys.stderr))
+                sys.stdout, sys.stderr = io.StringIO(), io.StringIO()
+            elif act[1] == 'restore':
+                if _saved_streams:
+                    sys.stdout, sys.stderr = _saved_streams.pop()
+            elif act[1] == 'leak':
+                which = act[2] if len(act) > 2 else 'oe'
+                if 'o' in which:
+                    sys.stdout = io.StringIO()
+                if 'e' in which:
+                    sys.stderr = io.StringIO()
+            emit('swap', how=act[1], where=where)
         elif kind == 'probe':
             emit('probe', where=where, so=sys.stdout is ORIG_STREAMS[0], se=sys.stderr is ORIG_STREAMS[1])
         else:
@@ -823,6 +842,7 @@ def set_spec(spec, tracer=None, control=None):
     global _SPEC, TRACER, CONTROL_DIR, _WORLD
     _SPEC = spec
     _WORLD = None
+    del _saved_streams[:]
     if tracer is not None:
         TRACER = tracer
     CONTROL_DIR = control
